@@ -31,7 +31,7 @@ Verdict(r) ==
       iso == Iso(o, o.root, d, d.root)
       rt == IF r.kind = "model" THEN RoundTrip(o, o.root) ELSE [err |-> "skip"]
   IN [ id |-> r.id, kind |-> r.kind, fn |-> r.fn,
-       ser |-> Serializable(o, o.root), why |-> WhyNot(o, o.root), iso |-> iso,
+       ser |-> Serializable(o, o.root), why |-> IF Serializable(o, o.root) THEN "" ELSE WhyNot(o, o.root), iso |-> iso,
        rtErr |-> rt.err,
        miso |-> IF rt.err = "" THEN Iso(rt.cs, rt.root, d, d.root) ELSE FALSE ]
 
